@@ -20,7 +20,9 @@ func init() {
 			"(R4) every enqueue in AddBlockRequest is behind parent-hash equality with the last queued/requested/saved hash; " +
 			"(R5) the three views of the chain in BlockRepository (height, newest headers, hash->height map) are written together on every non-error path of every function that writes one of them; " +
 			"(R6) they are accessed only under the repository mutex; " +
-			"(R7) in ProcessBlock the block announcement follows the successful Add and its height is LastHeight() read after it.",
+			"(R7) in ProcessBlock the block announcement follows the successful Add and its height is LastHeight() read after it; " +
+			"(R8) in the header handler the loop-local last-hash cursor is rewritten in the same iteration after every call that moves the real last hash (checkStartHeight, AddBlockRequest, Revert); " +
+			"(R9) Revert prunes the hash->height map with hashes obtained per height from the general getter, not from the newest-file cache.",
 		NotDecided:  "that the two views are inverse for every message sequence (value level); contiguity of announced heights across reorg histories.",
 		Assumptions: []string{"wire.BlockHeader.BlockHash is a pure function of the header", "tests may call the repository directly"},
 		Tech:        "who-may-call, guard edge cut-sets with operand provenance, coupled field updates on all paths, lockset",
@@ -35,7 +37,8 @@ func init() {
 			"(R3,R4) coupled updates and lockset as in C02; " +
 			"(R5) in Node.GetHeaders every successful result's Headers is the accumulator of appended headers (the range is truncated at the tip, not replaced by an empty answer), and each append is behind a strict bound by the requested count; " +
 			"(R6) the documented -1 is translated to the tip before the internal getters are used (Header, BlockHash, GetHeaders); " +
-			"(R7) Revert re-reads the newest file from storage only after saving the in-memory tail, so an unsaved tail cannot be lost or resurrected.",
+			"(R7) Revert re-reads the newest file from storage only after saving the in-memory tail, so an unsaved tail cannot be lost or resurrected; " +
+			"(R8) the pruned hashes come from the general per-height getter; (R9) each removed file path depends on the removal loop's variable and the tail is saved before any removal.",
 		NotDecided:  "file arithmetic at the 1000-header boundaries, save/load equality and the exact range count as value statements; behaviour of the two storage back ends.",
 		Assumptions: []string{"storage calls are assumed fallible", "wire.BlockHeader (de)serialisation is trusted"},
 		Tech:        "bounds guard edge cut-sets, all-or-nothing path typestate, value provenance of results",
@@ -49,7 +52,8 @@ func init() {
 			"(R2) in Add a new file is started only on the success edge of saving the full one; " +
 			"(R3) a failing Revert leaves memory unchanged (C09.R2); " +
 			"(R4) in Load a further file is accepted only if the previous file was full; " +
-			"(R5) in the reorg path of HeadersHandler.Handle the reorg record is saved successfully before BlockRepository.Revert, and the per-height tx-file removal loop comes before both.",
+			"(R5) in the reorg path of HeadersHandler.Handle the reorg record is saved successfully before BlockRepository.Revert, and the per-height tx-file removal loop comes before both; " +
+			"(R6) in Revert the in-memory tail is saved before any file removal and every removal path follows the loop variable.",
 		NotDecided:  "the property proper: enumeration of crash images and single-operation faults, and convergence after restart (dynamic fault enumeration).",
 		Assumptions: []string{"each storage Write/Remove is atomic"},
 		Tech:        "event-order path typestate on the CFG, guard edge cut-sets",
@@ -87,7 +91,7 @@ func runC02(c *Check) {
 	}
 	// R1 who may call
 	c.whoMayCall("R1", "(*storage.BlockRepository).Add", map[string]string{
-		"spynode.(*Node).ProcessBlock":                 "adds the processed block on top of the tip",
+		"spynode.(*Node).ProcessBlock":               "adds the processed block on top of the tip",
 		"handlers.(HeadersHandler).checkStartHeight": "appends pre-start headers that link to the last hash",
 	}, 2)
 	c.whoMayCall("R1", "(*storage.BlockRepository).Revert", map[string]string{
@@ -195,6 +199,10 @@ func runC02(c *Check) {
 
 	// R6 lockset
 	c.lockset("R6", "storage", "BlockRepository", "mutex", a.set, []string{"storage"}, nil, 30)
+
+	// R8 / R9 (added after seeded round 2)
+	c.ruleHeaderCursorRefreshed("R8")
+	c.ruleRevertPrunesViaGetter("R9", a)
 }
 
 // ruleRepoCoupled: any function that writes one of (height, lastHeaders, heights) writes the others on
@@ -349,6 +357,10 @@ func runC09(c *Check) {
 		}
 		c.Min("R7", "storage reads in Revert", nR, 1)
 	}
+
+	// R8/R9 (added after seeded round 2)
+	c.ruleRevertPrunesViaGetter("R8", a)
+	c.ruleRevertFileLoop("R9")
 
 	// R3/R4
 	c.ruleRepoCoupled("R3", a)
@@ -539,6 +551,8 @@ func runC10(c *Check) {
 		c.Min("R1", "truncating writes in Revert", len(truncWrites), 1)
 		c.Min("R1", "file removals in Revert", len(removes), 1)
 	}
+
+	c.ruleRevertFileLoop("R6")
 
 	if fn := c.Fn("R2", "storage.(*BlockRepository).Add"); fn != nil {
 		n := 0
